@@ -14,6 +14,7 @@ RULE = ('exhaustive: every (gender, event) row of the scoring table x every inte
         'target >= 1 for which a mark was returned (minimality is vacuous at 0); distinct by (gender, event, target)')
 ASSUMPTIONS = ['athlon_score itself is checked against the exact formula by C01; here it is used as '
                'the forward function of the round trip, as the property states']
+RULE = RULE + '; unknown pairs also through the forward function at ages None / 20 / 50, and every kind of call as the first one after import'
 
 UNKNOWN = [('M', 'XYZ'), ('X', '100'), ('F', '110H'), ('M', '100H'), ('', ''), ('m', 'hj '), ('M', 'NA'), ('?', '100'),
            ('M', '100-Y'), ('M', 'M-100'), ('U-20', '100'), ('F', 'PEN-I'), ('M-', '100'), ('M', '-100'), ('F', '600'), ('M', '%s')]
